@@ -50,11 +50,17 @@ def build_with(kind, case, cfg, n_jobs=1):
     from AutoCarver.discretizers import Discretizer, QuantitativeDiscretizer, QualitativeDiscretizer
     vo = zoo.values_orders_arg(case); X, y = case['X'], case['y']
     if kind == 'Discretizer':
-        o = Discretizer(quantitative_features=list(case['quantitative']), qualitative_features=list(case['qualitative']), ordinal_features=list(case['ordinal']), values_orders=vo, min_freq=cfg['min_freq'], copy=True, n_jobs=n_jobs)
+        o = Discretizer(quantitative_features=list(case['quantitative']), qualitative_features=list(case['qualitative']), ordinal_features=list(case['ordinal']), values_orders=vo, min_freq=cfg['min_freq'], copy=True, n_jobs=n_jobs, **zoo.extra_kwargs(cfg))
     elif kind == 'QuantitativeDiscretizer':
-        o = QuantitativeDiscretizer(quantitative_features=list(case['quantitative']), min_freq=cfg['min_freq'], copy=True, n_jobs=n_jobs)
+        o = QuantitativeDiscretizer(quantitative_features=list(case['quantitative']), min_freq=cfg['min_freq'], copy=True, n_jobs=n_jobs, **{k: v for k, v in zoo.extra_kwargs(cfg).items() if k == 'str_nan'})
     elif kind == 'QualitativeDiscretizer':
-        o = QualitativeDiscretizer(qualitative_features=list(case['qualitative']), ordinal_features=list(case['ordinal']), values_orders=vo, min_freq=cfg['min_freq'], copy=True, n_jobs=n_jobs)
+        o = QualitativeDiscretizer(qualitative_features=list(case['qualitative']), ordinal_features=list(case['ordinal']), values_orders=vo, min_freq=cfg['min_freq'], copy=True, n_jobs=n_jobs, **zoo.extra_kwargs(cfg))
+    elif kind == 'StringDiscretizer':
+        from AutoCarver.discretizers.utils.type_discretizers import StringDiscretizer
+        o = StringDiscretizer(qualitative_features=list(case['qualitative']), copy=True, n_jobs=n_jobs, **{k: v for k, v in zoo.extra_kwargs(cfg).items() if k == 'str_nan'})
+    elif kind == 'ChainedDiscretizer':
+        from AutoCarver.discretizers.utils.qualitative_discretizers import ChainedDiscretizer
+        o = ChainedDiscretizer(qualitative_features=list(case['qualitative']), chained_orders=[{p: list(ch) + [p] for p, ch in lvl.items()} for lvl in case['levels']], min_freq=cfg['min_freq'], copy=True, n_jobs=n_jobs)
     else:
         o = zoo.make_carver(case, cfg); o.n_jobs = n_jobs
         if case['X_dev'] is not None: o.fit(X, y, X_dev=case['X_dev'], y_dev=case['y_dev'])
@@ -75,11 +81,23 @@ def make_case(rng, i):
     n = len(case['X'])
     # extra features: a second quantitative one, and two id-like categorical ones (dropped: largest modality rarer than min_freq)
     extra = {'q_more': [round(rng.random() * 9, 1) for _ in range(n)], 'c_id1': ['u%d' % (j % (n - 2)) for j in range(n)], 'c_id2': ['v%d' % (j % (n - 3)) for j in range(n)], 'c_id3': ['w%d' % (j % (n - 1)) for j in range(n)]}
+    extra['c_numnan'] = [[1, 2.0, 3, 2.0][j % 4] if j % 9 else np.nan for j in range(n)]                       # numeric-looking categories with missing values (StringDiscretizer path)
     for k, v in extra.items():
         case['X'][k] = pd.Series(v, dtype=float if k.startswith('q_') else object)
         if case['X_dev'] is not None: case['X_dev'][k] = pd.Series((v * 2)[:len(case['X_dev'])], dtype=float if k.startswith('q_') else object)
-    case['quantitative'] = case['quantitative'] + ['q_more']; case['qualitative'] = case['qualitative'] + ['c_id1', 'c_id2', 'c_id3']
+    case['quantitative'] = case['quantitative'] + ['q_more']; case['qualitative'] = case['qualitative'] + ['c_id1', 'c_id2', 'c_id3', 'c_numnan']
     return case
+
+
+def chained_case(rng, i):
+    """several features over one hierarchy; some of them so evenly spread that no value reaches min_freq (those features are left untouched)"""
+    leaves = ['v%d%d' % (g, j) for g in range(3) for j in range(4)]; levels = [{'G%d' % g: ['v%d%d' % (g, j) for j in range(4)] for g in range(3)}]
+    n = 60; cols = {}
+    for k in range(5):
+        if k in (1, 2, 4): cols['h%d' % k] = [leaves[(j + k) % 12] for j in range(n)]                      # 12 levels, 8.3% each: rejected at min_freq 0.1
+        else: cols['h%d' % k] = [leaves[min(11, int((j % 10) * 0.9)) if j % 3 else 0] for j in range(n)]     # v00 frequent
+    X = pd.DataFrame({c: pd.Series(v, dtype=object) for c, v in cols.items()})
+    return dict(X=X, y=pd.Series([j % 2 for j in range(n)]), X_dev=None, y_dev=None, quantitative=[], qualitative=list(cols), ordinal=[], values_orders={}, target='binary', levels=levels, origin=dict(kind='chained'))
 
 
 def one(arg):
@@ -136,6 +154,7 @@ def hashseed_digests(seed, tier):
     for i in range(n):
         case = make_case(rng, i); cfg = dict(rng.choice(zoo.CONFIGS)); cfg['min_freq_mod'] = None
         kind = ['Discretizer', 'BinaryCarver' if case['target'] == 'binary' else 'ContinuousCarver', 'QualitativeDiscretizer'][i % 3]
+        if i % 5 == 4: kind, case, cfg = 'ChainedDiscretizer', chained_case(rng, i), dict(min_freq=0.1)
         c = case if kind != 'QualitativeDiscretizer' else sub_case(case, case['qualitative'] + case['ordinal'])
         try:
             d = digest_obj(build_with(kind, c, cfg), c['X'])
@@ -151,7 +170,12 @@ def run(ctx):
     for i in range(n):
         case = make_case(ctx.rng, i); cfg = dict(ctx.rng.choice(zoo.CONFIGS)); cfg['min_freq_mod'] = None
         kind = ['Discretizer', 'QuantitativeDiscretizer', 'BinaryCarver' if case['target'] == 'binary' else 'ContinuousCarver', 'QualitativeDiscretizer'][i % 4]
+        if i % 3 == 1: cfg['str_nan'] = 'MISSING'; cfg['str_default'] = 'AUTRES'
         specs.append((kind, case, cfg, ctx.seed * 31 + i))
+    specs.append(('ChainedDiscretizer', chained_case(ctx.rng, 0), dict(min_freq=0.1), ctx.seed * 31 + 999))
+    for j in range(3):
+        c = make_case(ctx.rng, 100 + j); c = sub_case(c, [f for f in c['qualitative'] if f in ('c_numnan', 'c_num', 'c_int')])
+        specs.append(('StringDiscretizer', c, dict(min_freq=0.1, **({'str_nan': 'MISSING'} if j != 1 else {})), ctx.seed * 31 + 2000 + j))
     ctx.bound('fit / transform', '%d seeded frames with 5-8 features (two or more quantitative, id-like categorical ones that get dropped): each feature alone vs among the others; reversed feature '
               'lists + shuffled columns; n_jobs in {2,3} with a pool delivering imap_unordered results in seeded arbitrary order; PYTHONHASHSEED in {0,1,2,3} in sub-processes' % n)
     for recs in zoo.pmap(one, specs, procs=8):
